@@ -23,13 +23,14 @@ purpose is in design.d/C19.md, every construct is run through Python and Lean by
                another length), locals of one branch (assigned and used inside it only), and four
                shapes of `for`:
                  over a literal list (unrolled) | `if c: return e` (List.find?) |
-                 flag with `break` and `else: flag = False` (List.any) | updates of one local (List.foldl)
-  expressions  str / bool / None / int constants, tuples, `{"k": "v", ...}` and `[…]` literals, names of parameters and
+                 flag with `break` and `else: flag = False` (List.any) | updates of one local (List.foldl);
+               the last three may start with guards `if c: continue` (the list is filtered; no other `continue`)
+  expressions str / bool / None / int constants, tuples, `{"k": "v", ...}` and `[…]` literals, names of parameters and
                locals, `d["k"]` (KeyError when missing), `==`, `!=`, `is None`, `is not None`, `< <= > >=` and `+ - *`
                on integers, `max(a, b)`, `min(a, b)`, `len(list)`, `in` / `not in` on literal lists/tuples/sets of
                strings (or a module level constant holding one), on list values and between strings (substring),
                `s.startswith(p)`, `s.lower()`, `s.split()`, `s.split("c")`, `s.replace("c", "")`, `a + b` on strings, `and`, `or`, `not`, `a if c else b`,
-               `a or b` on lists, truthiness of lists and sets, `[e for x in l if c]`, `any(…)` / `all(…)` over a
+               `a or b` on lists, truthiness of lists and sets, `l[0]` (declared IndexError), `[e for x in l if c]`, `any(…)` / `all(…)` over a
                generator, `{*l}` with `-`, `&`, `|` of which only emptiness (`len(S) > 0`, truthiness) is observable
   atoms        expressions the caller gives a meaning to (`spec.atoms`: normalised Python source -> Lean term, type),
                e.g.  `self.params.get('nets_spawner')` -> `nets_spawner : Option String`,
@@ -198,13 +199,14 @@ class Spec:
                 function's monad (`self.should_rerun = lambda _: False` -> `set true`); it may contain what is refused
                 elsewhere (attribute stores, lambdas)
     unpack_error Lean term thrown by `a, b = <list of strings>` when the list has another length (Python's ValueError)
+    index_error Lean term thrown by `l[0]` on an empty list (Python's IndexError)
     type_defaults {opaque Lean type: a value of it}: values of these types may be compared with `==` (the type has a lawful
                 `BEq`) and locals of these types may be first assigned inside the branches of an `if`
     """
 
     def __init__(self, lean_name, binders, params, ret, atoms=None, blocks=None, monad="pure", doc="", calls=None,
                  assign_blocks=None, raises=None, ignored_calls=(), transparent_with=(), fields=None, prims=None,
-                 prelude=(), local_types=None, type_defaults=None, stmts=None, unpack_error=None):
+                 prelude=(), local_types=None, type_defaults=None, stmts=None, unpack_error=None, index_error=None):
         self.lean_name = lean_name
         self.binders = list(binders)
         self.params = dict(params)
@@ -223,6 +225,7 @@ class Spec:
         self.type_defaults = dict(type_defaults or {})
         self.stmts = {norm_block(k): v for k, v in (stmts or {}).items()}
         self.unpack_error = unpack_error
+        self.index_error = index_error
         self.monad = monad
         self.doc = doc
 
@@ -325,6 +328,13 @@ class _Fn:
         for n in ast.walk(fn):
             if isinstance(n, ast.stmt) and n is not fn and dump_stmts([n]) in self.spec.stmts:
                 pinned |= {id(x) for x in ast.walk(n)}
+        # a lambda may only occur inside a keyword argument of a call that is a key of `spec.calls` (there it is part of
+        # the declared text, e.g. `sorted(_1, key=lambda n: n.rank)`); it is never translated
+        for n in ast.walk(fn):
+            if isinstance(n, ast.Call) and n.keywords and not any(isinstance(a, ast.Starred) for a in n.args) \
+                    and self._template(n)[0] in self.spec.calls:
+                for kw in n.keywords:
+                    pinned |= {id(x) for x in ast.walk(kw.value) if isinstance(x, (ast.Lambda, ast.arguments, ast.arg))}
         for n in ast.walk(fn):
             if id(n) in pinned:
                 continue
@@ -519,6 +529,13 @@ class _Fn:
         if not isinstance(node.ctx, ast.Load):
             raise Unsupported(f"{self.fn.name}:{node.lineno}: `{ast.unparse(node)}`")
         d, ty = self.expr(node.value, eff)
+        if elem_type(ty) is not None and isinstance(node.slice, ast.Constant) and type(node.slice.value) is int \
+                and node.slice.value == 0:
+            # `l[0]`: the first element, Python's IndexError for the empty list
+            if self.spec.index_error is None or not self.spec.monadic or self.lam or not eff:
+                raise Unsupported(f"{self.fn.name}:{node.lineno}: `{ast.unparse(node)}` (the first element of a list only in a "
+                                  "function that declares the error of an empty list, outside loops and positions Python may skip)")
+            return (f"(← (match {d} with | pyHd :: _ => pure pyHd | [] => throw {self.spec.index_error}))"), elem_type(ty)
         if not (isinstance(node.slice, ast.Constant) and isinstance(node.slice.value, str)):
             raise Unsupported(f"{self.fn.name}:{node.lineno}: subscript `{ast.unparse(node)}` (only [\"literal\"])")
         if isinstance(ty, str) and ty not in LEAN_TYPES:
@@ -1232,8 +1249,16 @@ class _Fn:
         if isinstance(s.iter, (ast.List, ast.Tuple)) and not any(isinstance(e, ast.Starred) for e in s.iter.elts) \
                 and self.atom(s.iter) is None and not _str_elements(s.iter):
             return self._for_unrolled(s, depth, top, where)
-        if any(isinstance(n, ast.Continue) for n in ast.walk(s)):
-            raise Unsupported(f"{where}: `continue`")
+        # leading guards  `if c: continue`  (the first statements of the body): the loop runs over the elements that
+        # pass none of them, i.e. over the filtered list; any other `continue` is refused
+        body = list(s.body)
+        guards = []
+        while len(body) > 1 and isinstance(body[0], ast.If) and not body[0].orelse and len(body[0].body) == 1 \
+                and isinstance(body[0].body[0], ast.Continue):
+            guards.append(body.pop(0).test)
+        if any(isinstance(n, ast.Continue) for b in body + s.orelse for n in ast.walk(b)) \
+                or any(isinstance(n, ast.Continue) for t in guards for n in ast.walk(t)):
+            raise Unsupported(f"{where}: `continue` (only as the whole body of leading `if c: continue` guards)")
         if not isinstance(s.target, ast.Name) or s.target.id not in self.loopvars:
             raise Unsupported(f"{where}: loop target `{ast.unparse(s.target)}` (a name that is bound by this loop only)")
         src, ts = self.expr(s.iter)
@@ -1242,8 +1267,10 @@ class _Fn:
             raise Unsupported(f"{where}: loop over a {ts} (lists only)")
         v = lean_ident(s.target.id)
         scope = {s.target.id: (v, et)}
+        if guards:
+            conds = self._under(scope, lambda: [self.cond(t, False) for t in guards])
+            src = f"({src}.filter (fun {v} => {' && '.join('(!' + c + ')' for c in conds)}))"
         # leading loop-local bindings  `y = <pure expression>`  (each name assigned here only and unknown outside)
-        body = list(s.body)
         lets = []
         all_names_outside = {x.id for x in ast.walk(self.fn) if isinstance(x, ast.Name)
                              and not any(x is y for y in ast.walk(s))}
